@@ -635,6 +635,7 @@ func main() {
 		"GenRyu.v":     genRyu(),
 		"GenKernels.v": genKernels(),
 		"GenFuncs.v":   genFuncs(),
+		"GenSorter.v":  genSorter(),
 	}
 	// Files are written even when problems were found so that the directed search can still build: every
 	// definition that could not be derived from the current source is taken from the golden copy (the output
